@@ -81,8 +81,19 @@ Definition d_next_block (d : disp) (initial : Z) : res (bool * disp) :=
       if leqb v RBRACE then
         do r2 <- d_next_on_same_line d1;
         let '(same, d2) := r2 in
-        let d3 := if negb same then with_nesting d2 (d_nesting d2 - 1) else d2 in
-        Ok (initial <? d_nesting d3, d3)
+        if negb same then
+          let d3 := with_nesting d2 (d_nesting d2 - 1) in Ok (initial <? d_nesting d3, d3)
+        else
+          (* Go: `d.Val() == "}" && !d.nextOnSameLine()` failed AFTER nextOnSameLine moved the cursor
+             onto the next token of the line; the `else if d.Val() == "{" && !d.nextOnSameLine()`
+             then re-reads Val() at the NEW cursor *)
+          do v' <- d_val d2;
+          if leqb v' LBRACE then
+            do r3 <- d_next_on_same_line d2;
+            let '(same3, d3) := r3 in
+            let d4 := if negb same3 then with_nesting d3 (d_nesting d3 + 1) else d3 in
+            Ok (initial <? d_nesting d4, d4)
+          else Ok (initial <? d_nesting d2, d2)
       else if leqb v LBRACE then
         do r2 <- d_next_on_same_line d1;
         let '(same, d2) := r2 in
